@@ -248,7 +248,8 @@ fn determine_target(
         } else {
             target
         };
-        if let Some(pos) = without_scheme.find('/') {
+        // The authority ends at the first '/' or '?' (an absolute URI may have a query but no path)
+        if let Some(pos) = without_scheme.find(['/', '?']) {
             host = without_scheme[..pos].to_string();
             path = without_scheme[pos..].to_string();
         } else {
